@@ -44,4 +44,57 @@ theorem liftTarget_lift_applies (S : Schema) (hS : S ∈ familySchemas) (doc : N
   PM.C12.liftTarget_lift_applies S (textLoop_of_B _ (family_textLoop _ hS)).stable doc a b depth target f t st
     hv hn hf ht hab hend hfb htb hg hc hb
 
+/-- `PM.C12.insertPoint_insert_applies` with its schema guards discharged for the bundled schema family -/
+theorem insertPoint_insert_applies (S : Schema) (hS : S ∈ familySchemas) (doc : Node) (pos : Nat) (ty : TypeId)
+    (p : Nat) (n : Node) (hdoc : C01.IsElem doc) (hv : C01.Valid S doc) (hn : fnorm doc.kids = true)
+    (hvn : S.checkNode n = true) (hnn : n.norm = true) (hty : S.tyOf n = ty) (hg : insertGuard S doc p n = true)
+    (hc : insertPoint S doc pos ty = some (some p)) :
+    replaceStep S doc p p ⟨[n], 0, 0⟩ = .ok (some (.replace p p ⟨[n], 0, 0⟩ false)) ∧
+    ∃ doc', S.apply (.replace p p ⟨[n], 0, 0⟩ false) doc = .ok doc' ∧ C01.Valid S doc' :=
+  PM.C12.insertPoint_insert_applies S (textLoop_of_B _ (family_textLoop _ hS)).stable doc pos ty p n hdoc hv hn
+    hvn hnn hty hg hc
+
+/-- `PM.C12.dropPoint_drop_applies_closed` with its schema guards discharged for the bundled schema family -/
+theorem dropPoint_drop_applies_closed (S : Schema) (hS : S ∈ familySchemas) (doc : Node) (pos : Nat)
+    (C : List Node) (p : Nat) (hdoc : C01.IsElem doc) (hv : C01.Valid S doc) (hn : fnorm doc.kids = true)
+    (hvC : S.checkKids C = true) (hnC : fnorm C = true) (hsz : fsize C ≠ 0) (hg : dropGuard S doc p C = true)
+    (hc : dropPointPass1 S doc pos ⟨C, 0, 0⟩ = some (some p)) :
+    dropPoint S doc pos ⟨C, 0, 0⟩ = some (some p) ∧
+    replaceStep S doc p p ⟨C, 0, 0⟩ = .ok (some (.replace p p ⟨C, 0, 0⟩ false)) ∧
+    ∃ doc', S.apply (.replace p p ⟨C, 0, 0⟩ false) doc = .ok doc' ∧ C01.Valid S doc' :=
+  PM.C12.dropPoint_drop_applies_closed S (textLoop_of_B _ (family_textLoop _ hS)).stable doc pos C p hdoc hv hn
+    hvC hnC hsz hg hc
+
+/-- `PM.C12.joinPoint_join_applies` with its schema guards discharged for the bundled schema family -/
+theorem joinPoint_join_applies (S : Schema) (hS : S ∈ familySchemas) (doc : Node) (pos : Nat) (dir : Int)
+    (p : Nat) (st : Step) (hdoc : C01.IsElem doc) (hv : C01.Valid S doc) (hn : fnorm doc.kids = true)
+    (hdir : dir ≠ 0) (hg : joinGuard S doc p = true) (hc : joinPoint S doc pos dir = some (some p))
+    (hb : joinStep p 1 = .ok st) :
+    ∃ doc', S.apply st doc = .ok doc' ∧ C01.Valid S doc' ∧
+    (ftoks doc'.kids).filter Tok.isContent = (ftoks doc.kids).filter Tok.isContent :=
+  PM.C12.joinPoint_join_applies S (textLoop_of_B _ (family_textLoop _ hS)).stable doc pos dir p st hdoc hv hn
+    hdir hg hc hb
+
+/-- `PM.C12.insertPoint_insert_text_applies` with its schema guards discharged for the bundled schema family -/
+theorem insertPoint_insert_text_applies (S : Schema) (hS : S ∈ familySchemas) (doc : Node) (pos : Nat) (p : Nat)
+    (n : Node) (hdoc : C01.IsElem doc) (hv : C01.Valid S doc) (hn : fnorm doc.kids = true)
+    (hvn : S.checkNode n = true) (hnn : n.norm = true) (htext : S.tyOf n = S.textTy)
+    (hal : pairAligned doc p = true) (hm : marksAllowedAt S doc p n = true)
+    (hc : insertPoint S doc pos S.textTy = some (some p)) :
+    replaceStep S doc p p ⟨[n], 0, 0⟩ = .ok (some (.replace p p ⟨[n], 0, 0⟩ false)) ∧
+    ∃ doc', S.apply (.replace p p ⟨[n], 0, 0⟩ false) doc = .ok doc' ∧ C01.Valid S doc' :=
+  PM.C12.insertPoint_insert_text_applies S (textLoop_of_B _ (family_textLoop _ hS)).stable doc pos p n hdoc hv
+    hn hvn hnn htext hal hm hc
+
+/-- `PM.C12.insertPoint_insert_marked_top` with its schema guards discharged for the bundled schema family -/
+theorem insertPoint_insert_marked_top (S : Schema) (hS : S ∈ familySchemas) (doc : Node) (pos : Nat)
+    (ty : TypeId) (p : Nat) (n : Node) (hdoc : C01.IsElem doc) (hv : C01.Valid S doc)
+    (hn : fnorm doc.kids = true) (hvn : S.checkNode (strippedAt S doc p n) = true) (hnn : n.norm = true)
+    (hty : S.tyOf n = ty) (htop : topBoundary S doc p = true) (hm : marksAllowedAt S doc p n = false)
+    (hc : insertPoint S doc pos ty = some (some p)) :
+    replaceStep S doc p p ⟨[n], 0, 0⟩ = .ok (some (.replace p p ⟨[strippedAt S doc p n], 0, 0⟩ false)) ∧
+    ∃ doc', S.apply (.replace p p ⟨[strippedAt S doc p n], 0, 0⟩ false) doc = .ok doc' ∧ C01.Valid S doc' :=
+  PM.C12.insertPoint_insert_marked_top S (textLoop_of_B _ (family_textLoop _ hS)).stable doc pos ty p n hdoc hv
+    hn hvn hnn hty htop hm hc
+
 end PM.Family.C12
